@@ -104,3 +104,45 @@ pub fn build(s: &Spec) -> BoxSource {
     Spec::Custom { text } => crate::custom::CustomSource { text: text.clone(), map: None }.boxed(),
   }
 }
+
+/// Like `build`, but `observe` is called on every ReplaceSource / ConcatSource under
+/// construction after each mutating call (replace / insert / add), i.e. the tree is built
+/// through a history of the form mutate, observe, mutate, observe, ...
+pub fn build_observed(s: &Spec, observe: &mut dyn FnMut(&dyn rspack_sources::Source)) -> BoxSource {
+  match s {
+    Spec::Concat { how, children } if *how != 0 => {
+      let mut c = ConcatSource::default();
+      for x in children {
+        match x {
+          Spec::Concat { how: h2, children: ch2 } if *how == 1 => {
+            let mut inner = ConcatSource::default();
+            for y in ch2 {
+              inner.add(build_observed(y, observe));
+              observe(&inner);
+            }
+            let _ = h2;
+            c.add(inner)
+          }
+          _ => c.add(build_observed(x, observe)),
+        }
+        observe(&c);
+      }
+      c.boxed()
+    }
+    Spec::Concat { children, .. } => {
+      ConcatSource::new(children.iter().map(|c| build_observed(c, observe)).collect::<Vec<BoxSource>>()).boxed()
+    }
+    Spec::Replace { inner, repls } => {
+      let mut r = ReplaceSource::new(build_observed(inner, observe));
+      observe(&r);
+      for p in repls {
+        apply_repl(&mut r, p);
+        observe(&r);
+      }
+      r.boxed()
+    }
+    Spec::Cached(inner) => CachedSource::new(build_observed(inner, observe)).boxed(),
+    Spec::Boxed(inner) => build_observed(inner, observe).boxed(),
+    leaf => build(leaf),
+  }
+}
